@@ -119,7 +119,7 @@ class Fam:
             self.co = co
 
 
-def sweep(ctx, N):
+def sweep(ctx, N, focus=False):
     from numdifftools import fornberg as fb
     from numdifftools.fornberg import derivative, taylor
     m = mp()
@@ -133,11 +133,17 @@ def sweep(ctx, N):
     nflag = nflagged_cases = 0
     worst = 0.0
     for it in range(N):
-        g = Fam(rng, m)
+        g = Fam(rng, m) if not focus else Fam(rng, m, kinds=('log', 'inv', 'pow', 'expinv'))
         z0 = complex(rng.uniform(0, 1), rng.uniform(0, 1)) if rng.random() < 0.6 else float(rng.uniform(0, 1))
         n = int(rng.choice([1, 2, 3, 5, 6, 7, 12, 13, 14, 20, 25, 26, 27, 28, 40, 51, 52, 53, 80, 100])) if it % 2 else int(rng.integers(1, 21))
         dflt = it % 3 == 0
         kw = {} if dflt else dict(r=float(10 ** rng.uniform(-5, 0)), step_ratio=float(rng.uniform(1.2, 3)), num_extrap=int(rng.integers(1, 6)))
+        if focus:
+            # (used when something is broken) many coefficients from slowly decaying series, user-given large step ratios and initial radii far from
+            # the final one: the radius search then oscillates with a large FFT size, where every stage of the extrapolation carries weight
+            n = int(rng.choice([53, 55, 60, 80, 100]))
+            dflt = False
+            kw = dict(r=float(10 ** rng.uniform(-1.5, 0)), step_ratio=float(rng.uniform(2.4, 3.0)), num_extrap=int(rng.integers(2, 5)))
         desc = {'f': g.name, 'z0': repr(z0), 'n': n, 'options': kw, 'how': 'from numdifftools.fornberg import taylor; taylor(f, z0=z0, n=n, full_output=True, **options)'}
         fb._extrapolate = extr
         try:
@@ -189,7 +195,9 @@ def sweep(ctx, N):
                 worst = max(worst, err / bound)
         if bad is not None:
             _, k, err, est, fl, ex, got = bad
-            key = 'envelope:radius-reaches-singularity' if Rmax >= 0.9 * d else 'envelope:%s' % g.kind
+            # the recorded finding is a FINAL radius at or beyond the nearest singularity; a wrong coefficient with the final circle inside the disc of
+            # analyticity (even if the search overshot on the way) is a different failure
+            key = 'envelope:radius-reaches-singularity' if R >= d else 'envelope:%s' % g.kind
             ctx.violation(key, 'taylor(lambda z: %s, z0=%r, n=%d, %r): coefficient %d is %r, exact %r: error %.3g, but error_estimate %.3g and FFT floor %.3g (final radius %.4g, largest circle %.4g, nearest singularity at distance %.4g; degenerate=False, failed=False)' % (
                 g.name, z0, n, kw, k, got, ex, err, est, fl, R, Rmax, d), dict(desc, largest_radius=Rmax, coefficient=k, got=repr(got), exact=repr(ex), error=err, error_estimate=est, floor=fl, final_radius=R, distance_to_singularity=d))
         # derivative(): the same coefficients times k!, error estimates scaled the same way (bitwise)
@@ -415,6 +423,8 @@ def run(ctx):
                 ctx.brk(kind, what, descs[s + i])
     ctx.cov['traces_validated_against_impl'] = ncase
     ctx.cov['correspondence_disagreements'] = nbad
+    if ctx.broken:
+        sweep(ctx, 200, focus=True)
     sweep(ctx, ctx.n(150, 2500) if not ctx.broken else 600)
     ctx.assumptions += ['PARTIAL: proved = number of coefficients (finite domain, exhaustive), failed <-> cap, >= 4 circles before convergence, degenerate only after min_iter, positive radii, DFT = aliased Taylor coefficients, '
                         '_extrapolate removes two aliasing terms exactly, exactness of the returned coefficient on such data over R and C, derivative scaling; '
